@@ -8,6 +8,8 @@ FORMATS = ["dfxp", "sami", "srt", "webvtt", "microdvd", "scc"]
 WRITERS = ["SRTWriter", "WebVTTWriter", "DFXPWriter", "SinglePositioningDFXPWriter", "LegacyDFXPWriter",
            "SAMIWriter", "MicroDVDWriter", "SCCWriter"]
 
+WRITER_FMT = {"SRTWriter": "srt", "WebVTTWriter": "webvtt", "DFXPWriter": "dfxp", "SinglePositioningDFXPWriter": "dfxp",
+              "LegacyDFXPWriter": "dfxp", "SAMIWriter": "sami", "MicroDVDWriter": "microdvd", "SCCWriter": "scc"}
 HASH_POOL_QUICK = [0, 1, 3, 5]
 HASH_POOL_THOROUGH = [0, 1, 2, 3, 4, 5, 7, 11, 13, 17, 42, 1234]
 
@@ -67,10 +69,16 @@ def writer_ctor(rng, cls):
 
 def writer_call(rng, cls, langs_hint):
     kw = {}
-    if cls in ("DFXPWriter", "SinglePositioningDFXPWriter", "LegacyDFXPWriter") and rng.random() < 0.3:
-        kw["force"] = rng.choice(langs_hint + ["xx"]) if langs_hint else "xx"
-    if cls == "WebVTTWriter" and rng.random() < 0.25 and langs_hint:
-        kw["lang"] = rng.choice(langs_hint)
+    if cls in ("DFXPWriter", "SinglePositioningDFXPWriter", "LegacyDFXPWriter") and rng.random() < 0.35:
+        if rng.random() < 0.5:
+            kw["force_idx"] = rng.randrange(4)        # a language the set really has
+        else:
+            kw["force"] = rng.choice(langs_hint + ["xx"]) if langs_hint else "xx"
+    if cls == "WebVTTWriter" and rng.random() < 0.3:
+        if rng.random() < 0.6:
+            kw["lang_idx"] = rng.randrange(4)
+        elif langs_hint:
+            kw["lang"] = rng.choice(langs_hint)
     return kw
 
 
@@ -132,6 +140,8 @@ class Gen:
         self.last_doc_of_slot = {}
         self.tapes = {}
         self.inline_docs = {}
+        self.nwrites = 0
+        self.write_fmt = []
         self.ops = []
 
     def choose_doc(self, fmt, knobs, slot=None):
@@ -197,6 +207,7 @@ def gen_plan(run_seed, prop, tier="quick", faults=True):
         "p_repeat_doc": rng.choice([0.0, 0.3, 0.6]),
         "p_multilang": rng.choice([0.2, 0.6, 1.0]),
         "p_sibling": rng.choice([0.0, 0.3, 0.6]),
+        "p_chain": rng.choice([0.0, 0.0, 0.15, 0.4]),
         "p_build": rng.choice([0.0, 0.2, 0.5]) if prop == "C09" else rng.choice([0.0, 0.1, 0.3]),
         "reader_pool": rng.choice([0, 1, 1, 2, 3]) if prop == "C10" else 0,
         "writer_pool": rng.choice([0, 1, 1, 2, 3]),
@@ -257,7 +268,18 @@ def gen_plan(run_seed, prop, tier="quick", faults=True):
                 if ctor is None:
                     ctor = reader_ctor(rng, fmt)
                 doc = g.choose_doc(fmt, knobs, slot)
-                if isinstance(doc, dict):
+                if g.nwrites and rng.random() < knobs["p_chain"]:
+                    # conversion chain: read the output of an earlier write with the reader of that writer's format
+                    wi = rng.randrange(g.nwrites)
+                    fmt = g.write_fmt[wi]
+                    doc = {"from_write": wi}
+                    slot = None
+                    ctor = None
+                    if rslots.get(fmt) and rng.random() < 0.5:
+                        slot, ctor = rng.choice(rslots[fmt])
+                    if ctor is None:
+                        ctor = reader_ctor(rng, fmt)
+                elif isinstance(doc, dict) and "inline" in doc:
                     lst = g.inline_docs.setdefault(fmt, [])
                     if doc["inline"] not in lst:
                         lst.append(doc["inline"])
@@ -266,9 +288,10 @@ def gen_plan(run_seed, prop, tier="quick", faults=True):
                 h = g.new_handle()
                 op = {"kind": "read", "cls": docs.READER_OF[fmt], "ctor": ctor, "call": reader_call(rng, fmt),
                       "via": slot or "fresh", "doc": doc, "out": h, "session": s}
-                if slot:
-                    g.last_doc_of_slot[slot] = doc
-                g.last_doc_of_slot["fmt:" + fmt] = doc
+                if "from_write" not in doc:
+                    if slot:
+                        g.last_doc_of_slot[slot] = doc
+                    g.last_doc_of_slot["fmt:" + fmt] = doc
                 if rng.random() < knobs["p_conv"] and not op["call"]:
                     op["conv"] = "c%d" % s
                 g.hint[h] = {"fmt": fmt, "langs": ["en-US", "en", "und"] + ([op["call"]["lang"]] if "lang" in op["call"] else [])}
@@ -286,6 +309,8 @@ def gen_plan(run_seed, prop, tier="quick", faults=True):
                 ctor = writer_ctor(rng, w)
             op = {"kind": "write", "cls": w, "ctor": ctor, "call": writer_call(rng, w, g.hint[src]["langs"]),
                   "via": slot or "fresh", "in": src, "session": s}
+            g.nwrites += 1
+            g.write_fmt.append(WRITER_FMT[w])
             if rng.random() < knobs["p_conv"] and not op["call"]:
                 op["conv"] = "c%d" % s
         else:
